@@ -1,4 +1,756 @@
+//! refsolver: conversation monitor placed on PATH under the names patronus spawns
+//! (bitwuzla, yices-smt2, z3, cvc5).
+//!
+//! * strict SMT-LIB front end (R6): every command is parsed, scope- and sort-checked; a rejected
+//!   command is answered with `(error "...")` at once and logged, the session goes on;
+//! * persona: the capability profile of the solver whose name it was started under;
+//! * satisfiability is decided by the real z3 (absolute path), models are re-computed and
+//!   cross-checked with the R6 evaluator, values are printed in randomly chosen legal spellings;
+//! * unsat assumptions: z3's own / minimal (deletion) / full / random superset;
+//! * fault injection at the n-th response-bearing point (counter file shared across restarts);
+//! * event log (JSON lines) for the offline checkers.
+//!
+//! Environment: REFSOLVER_LOG, REFSOLVER_SEED, REFSOLVER_CORE, REFSOLVER_DIVERSIFY,
+//! REFSOLVER_FAULT=kind@n, REFSOLVER_COUNTER, REFSOLVER_SCRIPT, REFSOLVER_Z3_TIMEOUT_MS.
+
+use num_bigint::BigUint;
+use serde_json::json;
+use std::collections::{BTreeMap, BTreeSet};
+use std::io::{BufRead, BufReader, Write};
+use std::process::{Child, ChildStdin, ChildStdout, Command, Stdio};
+use vharness::refsem::bv::Bv;
+use vharness::refsem::smt::*;
+use vharness::util::Rng;
+
+const REAL_Z3: &str = "/usr/bin/z3";
+
+struct Backend {
+    child: Option<Child>,
+    stdin: Box<dyn Write>,
+    stdout: Box<dyn BufRead>,
+}
+
+impl Backend {
+    /// a private z3 process, or (REFSOLVER_Z3_FIFO_IN/OUT) a long-lived z3 shared by consecutive sessions
+    /// of one harness shard: process start-up dominates the cost of the tiny queries of this workload
+    fn start(seed: u64, timeout_ms: u64) -> Backend {
+        if let (Ok(fin), Ok(fout)) = (std::env::var("REFSOLVER_Z3_FIFO_IN"), std::env::var("REFSOLVER_Z3_FIFO_OUT")) {
+            let w = std::fs::OpenOptions::new().write(true).open(&fin).expect("refsolver: z3 fifo (in)");
+            let r = std::fs::File::open(&fout).expect("refsolver: z3 fifo (out)");
+            let mut b = Backend { child: None, stdin: Box::new(w), stdout: Box::new(BufReader::new(r)) };
+            b.send("(reset)");
+            b.send(&format!("(set-option :smt.random_seed {})", seed % 100000));
+            b.send(&format!("(set-option :sat.random_seed {})", seed % 100000));
+            let marker = format!("refsolver-sync-{}-{}", std::process::id(), seed);
+            b.send(&format!("(echo \"{marker}\")"));
+            // discard whatever an earlier (possibly aborted) session left in the pipe
+            loop {
+                let mut line = String::new();
+                match b.stdout.read_line(&mut line) {
+                    Ok(0) | Err(_) => break,
+                    Ok(_) => {
+                        if line.contains(&marker) {
+                            break;
+                        }
+                    }
+                }
+            }
+            b.send("(set-option :produce-unsat-assumptions true)");
+            b.send("(set-option :produce-models true)");
+            b.send("(set-logic ALL)");
+            return b;
+        }
+        let mut child = Command::new(REAL_Z3)
+            .args([
+                "-in",
+                &format!("sat.random_seed={}", seed % 100000),
+                &format!("smt.random_seed={}", seed % 100000),
+                "sat.phase=random",
+                "smt.phase_selection=5",
+                &format!("-t:{timeout_ms}"),
+            ])
+            .stdin(Stdio::piped())
+            .stdout(Stdio::piped())
+            .stderr(Stdio::null())
+            .spawn()
+            .expect("refsolver: cannot start /usr/bin/z3");
+        let stdin: ChildStdin = child.stdin.take().unwrap();
+        let stdout: ChildStdout = child.stdout.take().unwrap();
+        let mut b = Backend { child: Some(child), stdin: Box::new(stdin), stdout: Box::new(BufReader::new(stdout)) };
+        b.send("(set-option :produce-unsat-assumptions true)");
+        b.send("(set-option :produce-models true)");
+        b.send("(set-logic ALL)");
+        b
+    }
+    fn send(&mut self, s: &str) {
+        let _ = writeln!(self.stdin, "{s}");
+        let _ = self.stdin.flush();
+    }
+    /// one balanced response
+    fn recv(&mut self) -> String {
+        let mut out = String::new();
+        loop {
+            let mut line = String::new();
+            match self.stdout.read_line(&mut line) {
+                Ok(0) | Err(_) => return out,
+                Ok(_) => {}
+            }
+            out.push_str(&line);
+            let bal: i64 = out.chars().map(|c| if c == '(' { 1 } else if c == ')' { -1 } else { 0 }).sum();
+            if bal <= 0 && !out.trim().is_empty() {
+                return out.trim().to_string();
+            }
+        }
+    }
+    fn ask(&mut self, s: &str) -> String {
+        self.send(s);
+        self.recv()
+    }
+    fn finish(&mut self) {
+        if let Some(mut c) = self.child.take() {
+            self.send("(exit)");
+            let _ = c.wait();
+        }
+    }
+}
+
+struct Solver {
+    persona: String,
+    scope: Scope,
+    /// assertions per level (for the model self-check)
+    asserts: Vec<Vec<Term>>,
+    z3: Backend,
+    rng: Rng,
+    log: Option<std::fs::File>,
+    cmd_index: u64,
+    /// state after the last check
+    last: Last,
+    last_assumptions: Vec<Term>,
+    core_mode: String,
+    diversify: u64,
+    pushed_for_diversification: u32,
+    fault: Option<(String, u64)>,
+    counter_file: Option<String>,
+}
+
+#[derive(PartialEq, Clone, Copy)]
+enum Last {
+    None,
+    Sat,
+    Unsat,
+}
+
+fn out(s: &str) {
+    let mut o = std::io::stdout().lock();
+    let _ = writeln!(o, "{s}");
+    let _ = o.flush();
+}
+
+impl Solver {
+    fn log(&mut self, v: serde_json::Value) {
+        if let Some(f) = self.log.as_mut() {
+            let _ = writeln!(f, "{v}");
+        }
+    }
+
+    fn reject(&mut self, cmd: &str, reason: &str) {
+        let i = self.cmd_index;
+        self.log(json!({"i": i, "cmd": cmd, "err": reason}));
+        out(&format!("(error \"{}\")", reason.replace('"', "'")));
+    }
+
+    fn supports(&self, what: &str) -> bool {
+        match (self.persona.as_str(), what) {
+            ("yices-smt2", "check-sat-assuming") | ("yices-smt2", "get-unsat-assumptions") | ("yices-smt2", "as-const") => false,
+            _ => true,
+        }
+    }
+
+    fn uses_const_array(t: &Term) -> bool {
+        match t {
+            Term::App(Op::ConstArray(_), _) => true,
+            Term::App(_, a) => a.iter().any(Self::uses_const_array),
+            Term::Let(b, body) => b.iter().any(|(_, t)| Self::uses_const_array(t)) || Self::uses_const_array(body),
+            _ => false,
+        }
+    }
+
+    /// declared constants a term depends on (through definitions)
+    fn deps(&self, t: &Term, acc: &mut BTreeSet<String>, seen: &mut BTreeSet<String>, bound: &mut Vec<String>) {
+        match t {
+            Term::Lit(_) => {}
+            Term::Sym(s) => {
+                if bound.contains(s) || !seen.insert(s.clone()) {
+                    return;
+                }
+                match self.scope.lookup(s) {
+                    Some(Binding::Declared(_)) => {
+                        acc.insert(s.clone());
+                    }
+                    Some(Binding::Defined(_, body)) => {
+                        let body = body.clone();
+                        self.deps(&body, acc, seen, &mut vec![]);
+                    }
+                    None => {}
+                }
+            }
+            Term::App(_, args) => {
+                for a in args {
+                    self.deps(a, acc, seen, bound);
+                }
+            }
+            Term::Let(b, body) => {
+                for (_, x) in b {
+                    self.deps(x, acc, seen, bound);
+                }
+                let n = bound.len();
+                bound.extend(b.iter().map(|(n, _)| n.clone()));
+                self.deps(body, acc, seen, bound);
+                bound.truncate(n);
+            }
+        }
+    }
+
+    /// values of the given declared constants in z3's current model
+    fn model_of(&mut self, names: &BTreeSet<String>) -> Result<Model, String> {
+        let mut model = Model::new();
+        let mut scalar_terms: Vec<(String, Option<BigUint>, Sort)> = vec![]; // (name, array index, sort of the value)
+        for n in names {
+            match self.scope.lookup(n) {
+                Some(Binding::Declared(Sort::Arr(i, e))) => {
+                    let ib = i.scalar_bits().unwrap();
+                    if ib > 6 {
+                        return Err(format!("array `{n}` has a {ib}-bit index: too large for the reference model"));
+                    }
+                    model.insert(n.clone(), SVal::Arr { isort: (**i).clone(), esort: (**e).clone(), default: BigUint::from(0u32), map: BTreeMap::new() });
+                    for k in 0..(1u64 << ib) {
+                        scalar_terms.push((n.clone(), Some(BigUint::from(k)), (**e).clone()));
+                    }
+                }
+                Some(Binding::Declared(s)) => scalar_terms.push((n.clone(), None, s.clone())),
+                _ => {}
+            }
+        }
+        for chunk in scalar_terms.chunks(200) {
+            let mut q = String::from("(get-value (");
+            for (n, idx, _) in chunk {
+                match idx {
+                    None => q.push_str(&format!("{} ", show_symbol(n))),
+                    Some(k) => {
+                        let isort = match self.scope.lookup(n) {
+                            Some(Binding::Declared(Sort::Arr(i, _))) => (**i).clone(),
+                            _ => unreachable!(),
+                        };
+                        q.push_str(&format!("(select {} {}) ", show_symbol(n), SVal::from_num(&isort, k.clone()).show()));
+                    }
+                }
+            }
+            q.push_str("))");
+            let resp = self.z3.ask(&q);
+            let sx = parse_sexprs(&resp).map_err(|e| format!("backend model unreadable: {e:?}: {resp}"))?;
+            let items = sx.first().and_then(|s| s.list()).ok_or_else(|| format!("backend model unreadable: {resp}"))?;
+            if items.len() != chunk.len() {
+                return Err(format!("backend returned {} values for {} terms: {resp}", items.len(), chunk.len()));
+            }
+            for ((n, idx, sort), item) in chunk.iter().zip(items.iter()) {
+                let pair = item.list().filter(|p| p.len() == 2).ok_or("backend model pair")?;
+                let v = match parse_term(&pair[1])? {
+                    Term::Lit(v) => v,
+                    other => return Err(format!("backend value is not a literal: {other:?}")),
+                };
+                if v.sort() != *sort {
+                    return Err(format!("backend value of `{n}` has sort {} expected {}", v.sort().show(), sort.show()));
+                }
+                match idx {
+                    None => {
+                        model.insert(n.clone(), v);
+                    }
+                    Some(k) => {
+                        if let Some(SVal::Arr { map, .. }) = model.get_mut(n) {
+                            map.insert(k.clone(), v.num());
+                        }
+                    }
+                }
+            }
+        }
+        Ok(model)
+    }
+
+    fn spell(&mut self, v: &SVal) -> String {
+        match v {
+            SVal::Bool(b) => b.to_string(),
+            SVal::Bv(b) => {
+                if b.w % 4 == 0 && self.rng.flip() {
+                    let mut h = b.v.to_str_radix(16);
+                    while (h.len() as u32) < b.w / 4 {
+                        h.insert(0, '0');
+                    }
+                    format!("#x{h}")
+                } else {
+                    format!("#b{}", b.bit_str())
+                }
+            }
+            SVal::Arr { isort, esort, default, map } => {
+                // choose the most frequent value as the default of the printed constant array, or not
+                let dflt = if self.rng.flip() { default.clone() } else { map.values().next().cloned().unwrap_or_else(|| default.clone()) };
+                let sort = v.sort().show();
+                let dv = self.spell(&SVal::from_num(esort, dflt.clone()));
+                let mut text = format!("((as const {sort}) {dv})");
+                let ib = isort.scalar_bits().unwrap();
+                let mut entries: Vec<(BigUint, BigUint)> = vec![];
+                if ib <= 6 {
+                    for k in 0..(1u64 << ib) {
+                        let k = BigUint::from(k);
+                        let val = map.get(&k).unwrap_or(default).clone();
+                        if val != dflt || self.rng.chance(1, 8) {
+                            entries.push((k, val));
+                        }
+                    }
+                } else {
+                    for (k, val) in map {
+                        entries.push((k.clone(), val.clone()));
+                    }
+                }
+                self.rng.shuffle(&mut entries);
+                let mut lets: Vec<(String, String)> = vec![];
+                for (n, (k, val)) in entries.into_iter().enumerate() {
+                    if self.rng.chance(1, 4) {
+                        let name = format!("a!{}", n + 1);
+                        lets.push((name.clone(), text));
+                        text = name;
+                    }
+                    let ks = self.spell(&SVal::from_num(isort, k));
+                    let vs = self.spell(&SVal::from_num(esort, val));
+                    text = format!("(store {text} {ks} {vs})");
+                }
+                for (name, def) in lets.into_iter().rev() {
+                    text = format!("(let (({name} {def})) {text})");
+                }
+                text
+            }
+        }
+    }
+
+    /// response-bearing point: returns true if a fault was injected (and the normal answer must not be sent)
+    fn fault_point(&mut self, kind_of_point: &str) -> bool {
+        let Some((kind, at)) = self.fault.clone() else { return false };
+        let n = match &self.counter_file {
+            Some(f) => {
+                let cur: u64 = std::fs::read_to_string(f).ok().and_then(|s| s.trim().parse().ok()).unwrap_or(0);
+                let _ = std::fs::write(f, format!("{}", cur + 1));
+                cur
+            }
+            None => 0,
+        };
+        if n != at {
+            return false;
+        }
+        self.log(json!({"fault": kind, "at": at, "point": kind_of_point}));
+        if let Some(len) = kind.strip_prefix("error-len-") {
+            let len: usize = len.parse().unwrap_or(5);
+            let msg: String = "injected-fault-message-with-(parens)-and-some-more-text-to-be-long-enough".chars().take(len).collect();
+            out(&format!("(error \"{msg}\")"));
+            return true;
+        }
+        match kind.as_str() {
+            "unknown" => out("unknown"),
+            "empty-line" => out(""),
+            "garbage" => out("%%garbage&&"),
+            "extra-paren" => out("sat)"),
+            "truncated-then-exit" => {
+                let mut o = std::io::stdout().lock();
+                let _ = write!(o, "((a #b0");
+                let _ = o.flush();
+                drop(o);
+                std::process::exit(0);
+            }
+            "exit-silently" => std::process::exit(0),
+            "exit-nonzero-with-stderr" => {
+                eprintln!("injected-stderr-text: solver crashed");
+                std::process::exit(3);
+            }
+            "unsat-instead" => out("unsat"),
+            _ => out("(error \"unknown fault kind\")"),
+        }
+        true
+    }
+
+    fn check(&mut self, text: &str, assumptions: Vec<Term>) {
+        for a in &assumptions {
+            match self.scope.sort_of(a) {
+                Ok(Sort::Bool) => {}
+                Ok(s) => return self.reject(text, &format!("ill-sorted: assumption has sort {}", s.show())),
+                Err(m) => return self.reject(text, &m),
+            }
+        }
+        // undo diversification scopes of the previous check
+        self.undo_diversification();
+        let q = if assumptions.is_empty() && !text.starts_with("(check-sat-assuming") {
+            "(check-sat)".to_string()
+        } else {
+            format!("(check-sat-assuming ({}))", assumptions.iter().map(show_term).collect::<Vec<_>>().join(" "))
+        };
+        let ans = self.z3.ask(&q);
+        let i = self.cmd_index;
+        self.last_assumptions = assumptions.clone();
+        match ans.as_str() {
+            "sat" => {
+                self.last = Last::Sat;
+                if self.diversify > 0 {
+                    self.diversify_model(&q);
+                }
+            }
+            "unsat" => self.last = Last::Unsat,
+            _ => self.last = Last::None,
+        }
+        self.log(json!({"i": i, "cmd": text, "ok": true, "answer": ans, "assumptions": assumptions.len()}));
+        if self.fault_point("check") {
+            return;
+        }
+        match ans.as_str() {
+            "sat" | "unsat" => out(&ans),
+            other => out(&format!("(error \"refsolver-budget: backend answered {}\")", other.replace('"', "'"))),
+        }
+    }
+
+    /// nudge z3 towards a random model: try to fix some declared scalar constants to random values
+    fn diversify_model(&mut self, check_cmd: &str) {
+        let mut names: Vec<(String, Sort)> = vec![];
+        for (n, _) in self.scope.order.iter() {
+            if let Some(Binding::Declared(s)) = self.scope.lookup(n) {
+                if let Sort::Bv(_) = s {
+                    names.push((n.clone(), s.clone()));
+                }
+            }
+        }
+        self.rng.shuffle(&mut names);
+        for (n, s) in names.into_iter().take(self.diversify as usize) {
+            let Sort::Bv(w) = s else { continue };
+            let v = Bv::new(w, self.rng.big(w));
+            self.z3.send("(push 1)");
+            self.z3.send(&format!("(assert (= {} #b{}))", show_symbol(&n), v.bit_str()));
+            let a = self.z3.ask(check_cmd);
+            if a == "sat" {
+                self.pushed_for_diversification += 1;
+            } else {
+                self.z3.send("(pop 1)");
+                // restore a sat state with a model
+                let _ = self.z3.ask(check_cmd);
+            }
+        }
+    }
+
+    fn undo_diversification(&mut self) {
+        if self.pushed_for_diversification > 0 {
+            self.z3.send(&format!("(pop {})", self.pushed_for_diversification));
+            self.pushed_for_diversification = 0;
+        }
+    }
+
+    fn get_value(&mut self, text: &str, terms: Vec<Term>) {
+        for t in &terms {
+            if let Err(m) = self.scope.sort_of(t) {
+                return self.reject(text, &m);
+            }
+        }
+        if self.last != Last::Sat {
+            return self.reject(text, "get-value without a preceding sat answer");
+        }
+        let mut names = BTreeSet::new();
+        for t in &terms {
+            self.deps(t, &mut names, &mut BTreeSet::new(), &mut vec![]);
+        }
+        let i = self.cmd_index;
+        let model = match self.model_of(&names) {
+            Ok(m) => m,
+            Err(e) => {
+                self.log(json!({"i": i, "cmd": text, "internal": e}));
+                if self.fault_point("get-value") {
+                    return;
+                }
+                out(&format!("(error \"refsolver-budget: {}\")", e.replace('"', "'")));
+                return;
+            }
+        };
+        let mut parts = vec![];
+        let mut logged = vec![];
+        for t in &terms {
+            let v = {
+                let mut ev = Evaluator::new(&self.scope, &model);
+                ev.eval(t)
+            };
+            let v = match v {
+                Ok(v) => v,
+                Err(e) => {
+                    self.log(json!({"i": i, "cmd": text, "internal": e}));
+                    out(&format!("(error \"refsolver-internal: {}\")", e.replace('"', "'")));
+                    return;
+                }
+            };
+            // cross-check scalar values against the backend's own evaluation
+            if !matches!(v, SVal::Arr { .. }) {
+                let resp = self.z3.ask(&format!("(get-value ({}))", show_term(t)));
+                let backend = parse_sexprs(&resp).ok().and_then(|s| s.first().cloned()).and_then(|s| s.list().and_then(|l| l.first().cloned())).and_then(|p| p.list().and_then(|l| l.get(1).cloned())).and_then(|x| parse_term(&x).ok());
+                if let Some(Term::Lit(bv)) = backend {
+                    if bv != v {
+                        self.log(json!({"i": i, "cmd": text, "internal": format!("evaluator disagrees with backend: {} vs {}", v.show(), bv.show())}));
+                        out("(error \"refsolver-internal: evaluator disagrees with the backend\")");
+                        return;
+                    }
+                }
+            }
+            let s = self.spell(&v);
+            logged.push(json!({"term": show_term(t), "value": v.show(), "spelling": s}));
+            parts.push(format!("({} {})", show_term(t), s));
+        }
+        self.log(json!({"i": i, "cmd": text, "ok": true, "values": logged}));
+        if self.fault_point("get-value") {
+            return;
+        }
+        out(&format!("({})", parts.join(" ")));
+    }
+
+    fn unsat_assumptions(&mut self, text: &str) {
+        if !self.supports("get-unsat-assumptions") {
+            return self.reject(text, "persona: get-unsat-assumptions unsupported");
+        }
+        if self.last != Last::Unsat {
+            return self.reject(text, "get-unsat-assumptions without a preceding unsat answer");
+        }
+        let all = self.last_assumptions.clone();
+        let check = |z3: &mut Backend, subset: &[Term]| -> bool { z3.ask(&format!("(check-sat-assuming ({}))", subset.iter().map(show_term).collect::<Vec<_>>().join(" "))) == "unsat" };
+        let mut core: Vec<Term> = match self.core_mode.as_str() {
+            "full" => all.clone(),
+            _ => {
+                // deletion-based minimisation
+                let mut cur = all.clone();
+                let mut k = 0;
+                while k < cur.len() {
+                    let mut cand = cur.clone();
+                    cand.remove(k);
+                    if check(&mut self.z3, &cand) {
+                        cur = cand;
+                    } else {
+                        k += 1;
+                    }
+                }
+                // leave the backend in the unsat state of the original query
+                let _ = check(&mut self.z3, &all);
+                cur
+            }
+        };
+        if self.core_mode == "random" {
+            for a in &all {
+                if !core.contains(a) && self.rng.flip() {
+                    core.push(a.clone());
+                }
+            }
+        }
+        if self.core_mode != "ordered" {
+            self.rng.shuffle(&mut core);
+        }
+        let i = self.cmd_index;
+        self.log(json!({"i": i, "cmd": text, "ok": true, "core": core.len(), "of": all.len(), "mode": self.core_mode}));
+        if self.fault_point("get-unsat-assumptions") {
+            return;
+        }
+        out(&format!("({})", core.iter().map(show_term).collect::<Vec<_>>().join(" ")));
+    }
+
+    fn handle(&mut self, sx: &Sx) -> bool {
+        self.cmd_index += 1;
+        let text = sx.show();
+        let cmd = match parse_cmd(sx) {
+            Ok(c) => c,
+            Err(m) => {
+                self.reject(&text, &m);
+                return true;
+            }
+        };
+        let i = self.cmd_index;
+        match cmd {
+            Cmd::SetOption(..) | Cmd::SetInfo => self.log(json!({"i": i, "cmd": text, "ok": true})),
+            Cmd::SetLogic(l) => {
+                if !["ALL", "QF_AUFBV", "QF_ABV", "QF_BV", "QF_UFBV"].contains(&l.as_str()) {
+                    self.reject(&text, &format!("unknown logic {l}"));
+                } else {
+                    self.log(json!({"i": i, "cmd": text, "ok": true}));
+                }
+            }
+            Cmd::DeclareConst(name, sort) => match self.scope.declare(&name, sort.clone()) {
+                Ok(()) => {
+                    self.undo_diversification();
+                    self.z3.send(&format!("(declare-const {} {})", show_symbol(&name), sort.show()));
+                    self.log(json!({"i": i, "cmd": text, "ok": true, "declares": name}));
+                }
+                Err(m) => self.reject(&text, &m),
+            },
+            Cmd::DefineFun(name, sort, body) => {
+                if !self.supports("as-const") && Self::uses_const_array(&body) {
+                    return {
+                        self.reject(&text, "persona: constant arrays (as const) unsupported");
+                        true
+                    };
+                }
+                match self.scope.define(&name, sort.clone(), body.clone()) {
+                    Ok(()) => {
+                        self.undo_diversification();
+                        self.z3.send(&format!("(define-fun {} () {} {})", show_symbol(&name), sort.show(), show_term(&body)));
+                        self.log(json!({"i": i, "cmd": text, "ok": true, "defines": name}));
+                    }
+                    Err(m) => self.reject(&text, &m),
+                }
+            }
+            Cmd::Assert(t) => {
+                if !self.supports("as-const") && Self::uses_const_array(&t) {
+                    self.reject(&text, "persona: constant arrays (as const) unsupported");
+                    return true;
+                }
+                match self.scope.sort_of(&t) {
+                    Ok(Sort::Bool) => {
+                        self.undo_diversification();
+                        self.z3.send(&format!("(assert {})", show_term(&t)));
+                        self.asserts.last_mut().unwrap().push(t);
+                        self.log(json!({"i": i, "cmd": text, "ok": true}));
+                    }
+                    Ok(s) => self.reject(&text, &format!("ill-sorted: asserted term has sort {}", s.show())),
+                    Err(m) => self.reject(&text, &m),
+                }
+            }
+            Cmd::CheckSat => self.check(&text, vec![]),
+            Cmd::CheckSatAssuming(ts) => {
+                if !self.supports("check-sat-assuming") {
+                    self.reject(&text, "persona: check-sat-assuming unsupported");
+                } else {
+                    self.check(&text, ts);
+                }
+            }
+            Cmd::Push(n) => {
+                self.undo_diversification();
+                for _ in 0..n {
+                    self.scope.push();
+                    self.asserts.push(vec![]);
+                }
+                self.z3.send(&format!("(push {n})"));
+                self.last = Last::None;
+                self.log(json!({"i": i, "cmd": text, "ok": true}));
+            }
+            Cmd::Pop(n) => {
+                if (n as usize) >= self.scope.levels.len() {
+                    self.reject(&text, "pop below the first assertion level");
+                } else {
+                    self.undo_diversification();
+                    for _ in 0..n {
+                        let _ = self.scope.pop();
+                        self.asserts.pop();
+                    }
+                    self.z3.send(&format!("(pop {n})"));
+                    self.last = Last::None;
+                    self.log(json!({"i": i, "cmd": text, "ok": true}));
+                }
+            }
+            Cmd::GetValue(ts) => self.get_value(&text, ts),
+            Cmd::GetUnsatAssumptions => self.unsat_assumptions(&text),
+            Cmd::Exit => {
+                self.log(json!({"i": i, "cmd": text, "ok": true}));
+                self.z3.finish();
+                return false;
+            }
+        }
+        true
+    }
+}
+
+/// scripted mode (C14/C15 direct tests): answers every response-bearing command with the next line of the script
+fn scripted(path: &str) {
+    let lines: Vec<String> = std::fs::read_to_string(path).unwrap_or_default().lines().map(|s| s.to_string()).collect();
+    let mut k = 0;
+    let stdin = std::io::stdin();
+    let mut buf = String::new();
+    for line in stdin.lock().lines() {
+        let Ok(line) = line else { break };
+        buf.push_str(&line);
+        buf.push('\n');
+        let Ok(sxs) = parse_sexprs(&buf) else { continue };
+        buf.clear();
+        for sx in sxs {
+            let head = sx.list().and_then(|l| l.first()).and_then(|h| h.atom()).unwrap_or("").to_string();
+            match head.as_str() {
+                "check-sat" | "check-sat-assuming" | "get-value" | "get-unsat-assumptions" => {
+                    let reply = lines.get(k).cloned().unwrap_or_else(|| "sat".into());
+                    k += 1;
+                    if reply == "<exit>" {
+                        std::process::exit(0);
+                    }
+                    if let Some(r) = reply.strip_prefix("<raw-no-newline>") {
+                        let mut o = std::io::stdout().lock();
+                        let _ = write!(o, "{r}");
+                        let _ = o.flush();
+                        drop(o);
+                        std::process::exit(0);
+                    }
+                    out(&reply);
+                }
+                "exit" => return,
+                _ => {}
+            }
+        }
+    }
+}
+
 fn main() {
-    eprintln!("refsolver: not built yet");
-    std::process::exit(2);
+    let argv0 = std::env::args().next().unwrap_or_default();
+    let persona = std::path::Path::new(&argv0).file_name().map(|s| s.to_string_lossy().to_string()).unwrap_or_default();
+    if let Ok(script) = std::env::var("REFSOLVER_SCRIPT") {
+        scripted(&script);
+        return;
+    }
+    let seed: u64 = std::env::var("REFSOLVER_SEED").ok().and_then(|s| s.parse().ok()).unwrap_or(1);
+    let timeout_ms: u64 = std::env::var("REFSOLVER_Z3_TIMEOUT_MS").ok().and_then(|s| s.parse().ok()).unwrap_or(20_000);
+    let log = std::env::var("REFSOLVER_LOG").ok().and_then(|p| std::fs::OpenOptions::new().create(true).append(true).open(p).ok());
+    let fault = std::env::var("REFSOLVER_FAULT").ok().and_then(|f| {
+        let (k, n) = f.rsplit_once('@')?;
+        Some((k.to_string(), n.parse().ok()?))
+    });
+    let mut s = Solver {
+        persona: persona.clone(),
+        scope: Scope::new(),
+        asserts: vec![vec![]],
+        z3: Backend::start(seed, timeout_ms),
+        rng: Rng::new(seed),
+        log,
+        cmd_index: 0,
+        last: Last::None,
+        last_assumptions: vec![],
+        core_mode: std::env::var("REFSOLVER_CORE").unwrap_or_else(|_| "minimal".into()),
+        diversify: std::env::var("REFSOLVER_DIVERSIFY").ok().and_then(|s| s.parse().ok()).unwrap_or(0),
+        pushed_for_diversification: 0,
+        fault,
+        counter_file: std::env::var("REFSOLVER_COUNTER").ok(),
+    };
+    s.log(json!({"session": persona, "seed": seed}));
+    let stdin = std::io::stdin();
+    let mut buf = String::new();
+    for line in stdin.lock().lines() {
+        let Ok(line) = line else { break };
+        buf.push_str(&line);
+        buf.push('\n');
+        match parse_sexprs(&buf) {
+            Ok(sxs) => {
+                buf.clear();
+                for sx in sxs {
+                    if !s.handle(&sx) {
+                        return;
+                    }
+                }
+            }
+            Err(LexError::Incomplete) => continue,
+            Err(LexError::Syntax(m)) => {
+                buf.clear();
+                s.cmd_index += 1;
+                s.reject("<unparsable>", &format!("syntax: {m}"));
+            }
+        }
+    }
+    s.z3.finish();
 }
